@@ -12,8 +12,17 @@ open CC.Spec.Seq (SOp Out)
 
 /-- any push/pop/peek/size call that reports an error returns the stack it was given -/
 theorem error_is_inert (s : Stack) (op : SOp) (m : Mem) (hinv : s.Inv) (st : Stat)
-    (h1 : (s.step op m).1.st = some st) (h2 : st ≠ .ok) : (s.step op m).2.1 = s :=
-  Stack.ext_v ((C09Stack.step_refines s op m hinv).2.2.2.2.2.2 st h1 h2)
+    (h1 : (s.step op m).1.st = some st) (h2 : st ≠ .ok) :
+    (s.step op m).2.1 = s ∧ (s.step op m).2.2.live = m.live ∧ (s.step op m).2.2.liveLibc = m.liveLibc ∧
+    (s.step op m).2.2.fault = m.fault ∧ (st ≠ .errAlloc → (s.step op m).2.2.nrefused = m.nrefused) := by
+  obtain ⟨_, _, _, _, s5, s6, s7⟩ := C09Stack.step_refines s op m hinv
+  obtain ⟨l1, l2, l3, _⟩ := Stack.step_led s op m hinv
+  refine ⟨Stack.ext_v (s7 st h1 h2) (Stack.step_inv s op m hinv).2.2, s5, ?_, s6, fun hne => ?_⟩
+  · cases ht : s.v.triple with
+    | conf => rw [ht] at l2; exact l2.1
+    | libc => rw [ht] at l1; simpa [Arr.own] using l1
+  · have : ¬ (s.step op m).1.st = some .errAlloc := by rw [h1]; simpa using hne
+    simpa [this] using l3
 
 /-- pop and peek succeed exactly on non-empty stacks; on the empty stack: error, nothing changed -/
 theorem empty_rejected (s : Stack) (m : Mem) (hinv : s.Inv) :
@@ -28,7 +37,7 @@ theorem empty_rejected (s : Stack) (m : Mem) (hinv : s.Inv) :
   have h0 : ¬ 0 < s.v.size := by rw [← hne]; simpa using h
   have hnok : (s.v.removeLast m).1 ≠ .ok := fun hk => h0 (r8.1 hk)
   have hs : s.v.abs = [] := h
-  refine ⟨Stack.ext_v (r7 hnok), r6, ?_, ?_, g3⟩
+  refine ⟨Stack.ext_v (r7 hnok) rfl, r6, ?_, ?_, g3⟩
   · show (s.v.removeLast m).2.1 = none
     rw [r2, hs]; simp [Spec.Seq.removeLast]
   · show (s.v.getLast m).2.1 = none
@@ -44,7 +53,7 @@ theorem filter_empty_rejected (p : Nat → Bool) (s : Stack) (dgrow : Nat → Na
   have hs : s.v.abs = [] := h
   have hst : (s.v.filterMut p m).1 = .errOutOfRange := by rw [r1, hs]; simp [Spec.Seq.filterMut]
   have hnok : (s.v.filterMut p m).1 ≠ .ok := by rw [hst]; decide
-  refine ⟨hst, Stack.ext_v (r7 hnok), r5, ?_⟩
+  refine ⟨hst, Stack.ext_v (r7 hnok) rfl, r5, ?_⟩
   rcases Stack.filter_spec p s dgrow dexGe m hinv with ⟨f1, _, f2, f3⟩ | ⟨_, hne, _⟩ | ⟨_, hne, _⟩
   · exact ⟨f1, f2, f3⟩
   · exact absurd h hne
@@ -55,16 +64,33 @@ theorem iter_replace_inert (s : Stack) (it : ArrIter) (c : Spec.Seq.Cursor) (x :
     (hs : Arr.Sim s.v it c) (h : (s.iterReplace it x m).1 ≠ .ok) :
     (s.iterReplace it x m).2.2.1 = s ∧ (s.iterReplace it x m).2.2.2 = m := by
   obtain ⟨_, _, _, _, _, r6, r7⟩ := Arr.iterReplace_sim s.v it c x m hinv hs
-  exact ⟨Stack.ext_v (r7 h), r6⟩
+  exact ⟨Stack.ext_v (r7 h) rfl, r6⟩
 
 /-- an invalid capacity: no object, and the ledger is balanced again (the header that
 `cc_stack_new_conf` allocates first is released) -/
-theorem new_invalid (cap : Nat) (grow : Nat → Nat) (exGe : Nat → Bool) (m : Mem)
-    (h : (Stack.new cap grow exGe m).1 = .errInvalidCapacity) :
-    (Stack.new cap grow exGe m).2.1 = none ∧ (Stack.new cap grow exGe m).2.2.live = m.live ∧
-    (Stack.new cap grow exGe m).2.2.fault = m.fault := by
-  rcases Stack.new_spec cap grow exGe m with ⟨_, s2, s3, s4⟩ | ⟨ok, _⟩
+theorem new_invalid (cap : Nat) (grow : Nat → Nat) (exGe : Nat → Bool) (m : Mem) (t : Triple)
+    (h : (Stack.new cap grow exGe m t).1 = .errInvalidCapacity) :
+    (Stack.new cap grow exGe m t).2.1 = none ∧ Arr.own t (Stack.new cap grow exGe m t).2.2 = Arr.own t m ∧
+    (Stack.new cap grow exGe m t).2.2.fault = m.fault := by
+  rcases Stack.new_spec cap grow exGe m t with ⟨_, s2, s3, s4⟩ | ⟨ok, _⟩
   · exact ⟨s2, s3, s4⟩
   · rw [ok] at h; simp at h
+
+/-- zip replace before the first yield: rejected, both stacks unchanged -/
+theorem zip_replace_inert (s t : Stack) (it : ArrIter) (z : Spec.Seq.ZipCursor) (x y : Nat) (m : Mem) (hs : s.Inv)
+    (ht : t.Inv) (h : Arr.ZSim s.v t.v it z) (hne : (Stack.zipReplace s t it x y m).1 ≠ .ok) :
+    (Stack.zipReplace s t it x y m).2.2.1 = s ∧ (Stack.zipReplace s t it x y m).2.2.2.1 = t ∧
+    (Stack.zipReplace s t it x y m).2.2.2.2 = m := by
+  obtain ⟨_, _, _, _, _, _, _, r8, r9⟩ := Arr.zipReplace_sim s.v t.v it z x y m hs ht h
+  obtain ⟨e1, e2⟩ := r9 hne
+  exact ⟨Stack.ext_v e1 rfl, Stack.ext_v e2 rfl, r8⟩
+
+/-! Non-vacuity: the empty stack rejects pop, peek and both filters and stays what it was -/
+example :
+    let s : Stack := ⟨Arr.mk 0 2 [9, 9] (fun c => 2 * c) .conf, .conf⟩
+    s.Inv ∧ (s.pop {}).1 = .errOutOfRange ∧ (s.peek {}).1 = .errValueNotFound ∧
+    (s.filterMut (fun _ => true) {}).1 = .errOutOfRange ∧
+    (s.filter (fun _ => true) (fun c => 2 * c) (fun _ => false) {}).1 = .errOutOfRange ∧
+    (s.pop {}).2.2.1.v.buf = [9, 9] ∧ (s.pop {}).2.2.1.v.size = 0 := by decide
 
 end CC.Properties.C16Stack
